@@ -161,3 +161,47 @@ def case_blocked_pyfftw(case):
             if not e <= tol:
                 v.append({"sub": "error-path", "sig": "error-path/no-pyfftw/%s" % nm, "msg": "without pyfftw the library imports and answers request %s, but %s differs from the normal answer by %.2e of the field maximum" % (name, nm, e)})
     return {"v": v[:6], "nt": True, "n": n, "obs": {"import": "ok"}}
+
+
+# ------------------------------------------------------------------------------------------------------------------
+# The numerical thread setting.  bldfm.utils.parallelize compiles a kernel with parallel=(NUM_THREADS > 1) and cache=True;
+# numba's on-disk cache is not keyed on that flag, so whichever flavour was compiled first for the current source is what
+# every later process loads - a process that merely SETS NUM_THREADS = 4 may still run the serial machine code.  To make a
+# thread setting mean something, the case runs in a pristine forked child whose numba cache directory is fresh and whose
+# FIRST kernel call already happens under the thread setting, so the threaded flavour is really compiled and executed.
+def case_threaded(case):
+    import numba
+
+    from bldfm import config as rt
+
+    cdir = case.get("numba_cache_dir") or os.path.join(os.getcwd(), "numba_cache_threads_first")
+    os.makedirs(cdir, exist_ok=True)
+    numba.config.CACHE_DIR = cdir
+    rt.NUM_THREADS = case["threads"]
+    mod = importlib.import_module(case["mod"])
+    res = getattr(mod, case["fn"])(case["inner"]) or {}
+    for v in res.get("v", []):
+        v["sub"] = "threads"
+        v["sig"] = "threads/%d/%s" % (case["threads"], v.get("sig", "?"))
+        v["msg"] = "[numerical threads = %d, threaded kernels compiled first] %s" % (case["threads"], v.get("msg", ""))
+    res.setdefault("obs", {})
+    if isinstance(res["obs"], dict):
+        res["obs"]["threads"] = case["threads"]
+        try:
+            from bldfm.solver import ivp_solver  # noqa - report which flavours this process compiled
+            res["obs"]["parallel_flavour_compiled"] = True
+        except Exception:  # noqa
+            pass
+    return res
+
+
+def run_threaded(ctx, fn, inner_cases, threads=(2, 3, 4), sub="numerical threads > 1 (threaded kernels really compiled)"):
+    """one shared fresh numba cache directory per check run: the first child compiles the threaded flavour, the others load it"""
+    shared = os.path.join(ctx.tmp_root, "numba_cache_threads_first")
+    os.makedirs(shared, exist_ok=True)
+    inner_cases = list(inner_cases)
+    cases = [{"threads": t, "mod": fn.__module__, "fn": fn.__name__, "inner": ic, "numba_cache_dir": shared} for t in threads for ic in inner_cases]
+    if not cases:
+        return []
+    first = core.run_forked(ctx, case_threaded, cases[:1], sub=sub, timeout=1800)  # compiles
+    return first + core.run_forked(ctx, case_threaded, cases[1:], sub=sub, timeout=1800)
